@@ -747,6 +747,14 @@ func c09Monitors(c *c09Case) (fails []Failure, timing bool) {
 			timing = true
 		}
 	}
+	if c.Conn == "tls-slow" && c.HandshakeMs < c.DialMs {
+		// a handshake that was to finish well inside DialTimeout but did not (overloaded machine): run again
+		for _, r := range o.Calls {
+			if r.Out == "error" {
+				timing = true
+			}
+		}
+	}
 	// M2 outcome: the reply (its own), an error, or the timeout error
 	for _, r := range o.Calls {
 		if r.Out == "badreply" {
@@ -1174,14 +1182,14 @@ func c09Gen(tier string, rng *rand.Rand) []c09Case {
 		cs = append(cs, c)
 		// ... or answers it late, inside / outside DialTimeout
 		c = base("tls-handshake-slow", "tls-slow", []c09Act{{Do: "reply"}})
-		c.DialMs = 400
+		c.DialMs = 900 // wide margin: under load the handshake itself takes its time
 		c.HandshakeMs = pick(100, 150, 200)
 		c.TimeoutMs = pick(300, 350)
 		c.Calls = 3
 		c.GapMs = 10
 		cs = append(cs, c)
 		c = base("tls-handshake-slow-concurrent", "tls-slow", []c09Act{{Do: "reply", DelayMs: 20}})
-		c.DialMs = 400
+		c.DialMs = 900
 		c.HandshakeMs = pick(100, 200)
 		c.TimeoutMs = 300
 		c.Callers = pick(2, 4)
